@@ -177,35 +177,40 @@ From PV Require Import model.SccLen model.SccStash model.SccDecoder model.SccReu
    Here the model DOES contain the document (parsed lines), the decoder and its twelve state fields; a read() starts from
    whatever the reset re-creates (`fs` = the fields it re-creates) and leaves its state in the object - also when it raises. *)
 
+(* MODEL-ONLY / definitional (suffix _unfold, not counted as property theorems): `reader_read` IS `SccDecoder.read` with rstate0 replaced by
+   `reset_fields fs s`; with every field re-created the old state is irrelevant by unfolding.  `code_reset` is DEFINED as all twelve
+   fields - that SCCReader._reset_state assigns them is read off the AST by the harness and tested by keeping one attribute across
+   the reset (request 1002 without the field, alarm level).  The model is the reader with simulate_roll_up=False.
+   The substantive results of this block are C10_scc_time_translator_reset_redundant and C10_scc_partial_resets_refuted. *)
 (* a reset that covers the decoder state: the object is as new, whatever it went through *)
-Theorem C10_scc_reset_covers_fresh : forall fs s offset, covers fs = true -> reset_fields fs s offset = rstate0 offset.
+Theorem C10_scc_reset_covers_fresh_unfold : forall fs s offset, covers fs = true -> reset_fields fs s offset = rstate0 offset.
 Proof. exact reset_covers_fresh. Qed.
-Print Assumptions C10_scc_reset_covers_fresh.
+Print Assumptions C10_scc_reset_covers_fresh_unfold.
 
 (* one read(): for EVERY state the object may be in, every document and offset, the result is that of a new object *)
-Theorem C10_scc_read_independent_of_reader_state : forall fs s offset ls,
+Theorem C10_scc_read_independent_of_reader_state_unfold : forall fs s offset ls,
   covers fs = true -> snd (reader_read fs s offset ls) = SccDecoder.read offset ls.
 Proof. exact reader_read_is_fresh_read. Qed.
-Print Assumptions C10_scc_read_independent_of_reader_state.
+Print Assumptions C10_scc_read_independent_of_reader_state_unfold.
 
 (* every history of documents read by one object (refused documents included), from any initial state *)
-Theorem C10_scc_reader_history_isolated : forall fs docs s,
+Theorem C10_scc_reader_history_isolated_unfold : forall fs docs s,
   covers fs = true -> reader_history fs s docs = map (fun d => SccDecoder.read (fst d) (snd d)) docs.
 Proof. exact reader_history_isolated. Qed.
-Print Assumptions C10_scc_reader_history_isolated.
+Print Assumptions C10_scc_reader_history_isolated_unfold.
 
 (* the same document again, after anything else was read on the object: the same result *)
-Theorem C10_scc_same_document_same_result : forall fs before between after d s,
+Theorem C10_scc_same_document_same_result_unfold : forall fs before between after d s,
   covers fs = true ->
   let rs := reader_history fs s (before ++ d :: between ++ d :: after) in
   nth_error rs (length before) = nth_error rs (length before + S (length between)).
 Proof. exact reader_history_same_document_same_result. Qed.
-Print Assumptions C10_scc_same_document_same_result.
+Print Assumptions C10_scc_same_document_same_result_unfold.
 
 (* the reset of the repaired code re-creates all twelve fields *)
-Theorem C10_scc_code_reset_covers : covers code_reset = true.
+Theorem C10_scc_model_code_reset_is_all_fields_unfold : covers code_reset = true.
 Proof. exact code_reset_covers. Qed.
-Print Assumptions C10_scc_code_reset_covers.
+Print Assumptions C10_scc_model_code_reset_is_all_fields_unfold.
 
 (* not every field of the reset is needed: a reset that leaves the time translator (_last_time, _frames) as the last read
    left it still gives the new-object result, for every state, document and offset (start_at() overwrites both at the first
@@ -227,7 +232,7 @@ Print Assumptions C10_scc_partial_resets_refuted.
 
 Example C10_example_refused_then_valid :
   reader_history code_reset new_reader [doc_a_cut; doc_b]
-  = [RErr (ECrash 3); SccDecoder.read (fst doc_b) (snd doc_b)] /\
+  = [RErr ETiming; SccDecoder.read (fst doc_b) (snd doc_b)] /\
   (exists caps, SccDecoder.read (fst doc_b) (snd doc_b) = ROk caps /\ length caps = 1%nat).
 Proof. exact refused_then_valid. Qed.
 
@@ -250,9 +255,9 @@ Proof. exact par_history_isolated. Qed.
 Print Assumptions C10_par_reader_history_isolated.
 
 (* the resets of the code cover; the reset of first_alignment AFTER the paragraph is redundant *)
-Theorem C10_par_code_reset_covers : pcovers par_code_reset = true /\ pcovers [PLine; PFaPre] = true.
+Theorem C10_par_code_reset_covers_unfold : pcovers par_code_reset = true /\ pcovers [PLine; PFaPre] = true.
 Proof. exact par_code_reset_covers. Qed.
-Print Assumptions C10_par_code_reset_covers.
+Print Assumptions C10_par_code_reset_covers_unfold.
 
 (* partial resets, two-document witnesses: no `line = []` -> the first caption of document 2 starts with the nodes of document 1's
    last caption; no alignment reset at all -> document 1's alignment positions document 2; only the reset AFTER the paragraph
@@ -267,10 +272,10 @@ Proof. exact par_partial_resets_refuted. Qed.
 Print Assumptions C10_par_partial_resets_refuted.
 
 (* MicroDVD: `fps = Fraction(25)` at the top of read() *)
-Theorem C10_mdvd_reader_history_isolated : forall fs docs s,
+Theorem C10_mdvd_reader_history_isolated_unfold : forall fs docs s,
   mcovers fs = true -> mdvd_history fs s docs = map mdvd_fresh docs.
 Proof. exact mdvd_history_isolated. Qed.
-Print Assumptions C10_mdvd_reader_history_isolated.
+Print Assumptions C10_mdvd_reader_history_isolated_unfold.
 
 Theorem C10_mdvd_no_reset_refuted :
   mdvd_history [] mstate0 [md_ntsc; md_plain] <> map mdvd_fresh [md_ntsc; md_plain] /\
@@ -280,10 +285,10 @@ Proof. exact mdvd_no_reset_refuted. Qed.
 Print Assumptions C10_mdvd_no_reset_refuted.
 
 (* WebVTT: the previous cue's start begins at 0 in every read(), for every option combination *)
-Theorem C10_vtt_reader_history_isolated : forall o fs docs s,
+Theorem C10_vtt_reader_history_isolated_unfold : forall o fs docs s,
   vcovers fs = true -> vtt_history o fs s docs = map (vtt_fresh o) docs.
 Proof. exact vtt_history_isolated. Qed.
-Print Assumptions C10_vtt_reader_history_isolated.
+Print Assumptions C10_vtt_reader_history_isolated_unfold.
 
 (* with ignore_timing_errors=True (the default) no reset is needed: the previous start is never consulted *)
 Theorem C10_vtt_lenient_needs_no_reset : forall o fs docs s,
@@ -301,7 +306,7 @@ Theorem C10_vtt_no_reset_refuted :
 Proof. exact vtt_no_reset_refuted. Qed.
 Print Assumptions C10_vtt_no_reset_refuted.
 
-(* the generic statement all of the above (and C10_scc_reader_history_isolated) instantiate: ANY reader object whose read() is
+(* the generic statement all of the above (and C10_scc_reader_history_isolated_unfold) instantiate: ANY reader object whose read() is
    the fresh read under a covering reset; the same document read twice at any two places of a history gives the same result *)
 Theorem C10_reader_object_same_document_same_result :
   forall (S D R F : Type) (prepare : list F -> S -> S) (consume : list F -> S -> D -> S * R) (fresh : D -> R)
